@@ -78,8 +78,8 @@ func (p *Path) spawn(fr *frame, instr *ssa.Go, fn Value, args []Value) {
 		p.abortf(abortUnsupported, "go statement at %s (scheduler not enabled: //verif:sched)", p.posStr(instr.Pos()))
 	}
 	s := p.ensureSched()
-	if len(s.threads) >= 8 {
-		p.abortf(abortBudget, "more than 8 goroutines")
+	if len(s.threads) >= 16 {
+		p.abortf(abortBudget, "more than 16 goroutines")
 	}
 	t := &thread{id: len(s.threads), wake: make(chan struct{})}
 	s.threads = append(s.threads, t)
